@@ -118,13 +118,13 @@ struct Doc {
 
 /// Seed-independent directed documents for productions that are known to fail
 /// (each one is a recorded finding; the random profile does not draw them).
-const DIRECTED: [(&str, &str, &str); 7] = [
+const DIRECTED: [(&str, &str, &str); 8] = [
     // documents with an empty key are expected to build and type-check: shapes that a
     // random document only contains by chance, present in every run by construction
     (
         "double_keys",
         "",
-        "struct D {\n  1: set<double> a = [1, 2.5],\n  2: map<double, string> b = {1: \"x\", 2.5: \"y\"},\n  3: list<double> c = [1, 2],\n  4: optional map<double, list<double>> d = {3: [4]},\n  5: double e = 7,\n}\nconst set<double> CS = [1, 2]\nconst map<double, i32> CM = {1: 2}\n",
+        "struct D {\n  1: set<double> a = [1, 2.5],\n  2: map<double, string> b = {1: \"x\", 2.5: \"y\"},\n  3: list<double> c = [1, 2],\n  4: optional map<double, list<double>> d = {3: [4]},\n  5: double e = 7,\n  6: set<list<double>> f,\n  7: map<list<double>, i32> g,\n  8: optional set<list<list<double>>> h,\n  9: map<set<list<double>>, string> i,\n  10: LD j,\n  11: map<set<i32>, list<LD>> k,\n  12: set<map<string, double>> l,\n}\ntypedef set<list<double>> LD\nconst set<double> CS = [1, 2]\nconst map<double, i32> CM = {1: 2}\nservice DK {\n  set<list<double>> m(1: map<list<double>, double> a, 2: LD b),\n}\n",
     ),
     (
         "boxed_literal",
@@ -150,6 +150,11 @@ const DIRECTED: [(&str, &str, &str); 7] = [
         "prelude",
         "c14|thrift|idl-name-shadows-unqualified-prelude-item",
         "struct Send { 1: i32 a }\nstruct Sync { 1: optional Send s }\nstruct Some { 1: string x }\nstruct None { }\nstruct Ok { 1: list<Some> l }\nstruct Err { 1: map<string, None> m }\nexception X { 1: string m }\nconst i32 Sized = 1\nservice S { Ok m(1: Err e) throws (1: X x) }\n",
+    ),
+    (
+        "typedef_set_key",
+        "c14|thrift|typedef-of-set-or-map-used-as-set-element-or-map-key",
+        "typedef set<i32> TS\ntypedef map<string, i32> TM\nstruct K {\n  1: map<TS, i32> a,\n  2: set<TS> b,\n  3: optional set<TM> c,\n}\n",
     ),
     (
         "recursive_union",
